@@ -28,7 +28,7 @@ MANIFEST = dict(
 CFG = {
     "quick": dict(mc=[("MC_Linepart.cfg", "full"), ("MC_Linepart_c.cfg", "chunked"), ("MC_Linepart_2.cfg", "two dimensions")],
                   gen=[("Gen_Linepart.cfg", 65535), ("Gen_Linepart_c.cfg", 3), ("Gen_Linepart_k.cfg", 65535), ("Gen_Linepart_2.cfg", 65535)],
-                  nrand=400, nlong=10),
+                  nrand=400, nlong=6),
     "thorough": dict(mc=[("MC_Linepart_t.cfg", "full"), ("MC_Linepart_r_t.cfg", "degenerate and inverted ranges"),
                          ("MC_Linepart_c_t.cfg", "chunked"), ("MC_Linepart_2_t.cfg", "two dimensions")],
                      gen=[("Gen_Linepart_t.cfg", 65535), ("Gen_Linepart_c_t.cfg", 3), ("Gen_Linepart_k_t.cfg", 65535), ("Gen_Linepart_2_t.cfg", 65535)],
@@ -340,6 +340,45 @@ def gen_long(ck, n):
         else:
             beh.append({"a": "poly", "arg": {"x": 0}})
         behs.append(beh)
+    return core_long(ck) + behs
+
+
+CHUNK = 65533     # points per part of linepart::array::set (the 16 bit counter limit - 2)
+
+
+def core_long(ck):
+    """Fixed templates (every run): no visible range with 65534..131072 values (C calls and C++ apply), and
+    array::set totals one below, at and one above 1..3 chunks (apply after set, after set + set(-1), polyline)."""
+    rng = ck.rng
+    behs = []
+
+    def init(data, ranged):
+        return {"a": "init", "arg": {"data": data, "lo": 0, "hi": 4, "ranged": ranged, "lim": 65535, "shift": 0}}
+
+    for total in (65534, 65535, 65536, 65537, 131071, 131072):
+        data = [2] * total
+        for p in (0, 65534, 65535, total - 1):          # without a range every value is visible
+            if p < total:
+                data[p] = rng.choice([-2, 6, 2])
+        beh = [init(data, 0)] + [{"a": "part", "arg": {"pct": 100}} for _ in range(4)]
+        behs.append(beh)
+        if total in (65536, 131072):
+            behs.append([init(data, 0), {"a": "apply", "arg": {"mode": "fresh"}}])
+        if total in (65537, 131071):
+            behs.append([init(data, 0), {"a": "apply", "arg": {"mode": "set"}}])
+    ks = (1, 2, 3) if ck.tier != "quick" else (1, 2)
+    totals = [k * CHUNK + d for k in ks for d in (-1, 0, 1)]
+    if ck.tier == "quick":
+        totals.append(3 * CHUNK)
+    for total in totals:
+        data = [2] * total
+        for p in (CHUNK - 1, CHUNK, 2 * CHUNK - 1, total - 1):
+            if p < total and rng.random() < 0.5:
+                data[p] = rng.choice([-2, 6])
+        mode = "set2" if total % CHUNK == 0 and rng.random() < 0.5 else "set"
+        behs.append([init(data, 1), {"a": "apply", "arg": {"mode": mode}}])
+        if total % CHUNK == 0:
+            behs.append([init(data, 1), {"a": "poly", "arg": {"x": 0}}])
     return behs
 
 
